@@ -455,11 +455,11 @@ private:
     // Fire callbacks outside lock
     if (tooLarge)
     {
-      sendClose(sid, 1009, "Message Too Big");
-      if (_onError)
-      {
-        _onError(sid, "Message exceeded maxFrameSize");
-      }
+      // Fail the connection: the session state (and with it the fragment buffer)
+      // is dropped. Only sending 1009 left the over-long message in place, so
+      // every further continuation frame was appended to it and answered with
+      // yet another Close frame.
+      failConnection(sid, 1009, "Message Too Big", "Message exceeded maxFrameSize");
       return;
     }
 
